@@ -127,6 +127,10 @@ UnitP(n, k) == Fv([i \in 1..(n + 1) |-> IF i = k THEN 1 ELSE 0])
 
 (* ------------------------------ lattices ------------------------------ *)
 Ts       == { <<1,1>>, <<2,1>>, <<5,2>> }
+(* sub-millisecond and long durations ("all durations T > 0"): low degrees and orders only, the integers of
+   T^-n for n >= 3 do not fit 32 bits; times are fractions of T *)
+SmallTs  == { <<1,2000>>, <<1,4000>>, <<1,16>>, <<40,1>> }
+FracTimes(T) == { <<0,1>>, RMul(<<1,4>>, T), RMul(<<1,2>>, T), T, RMul(<<3,2>>, T) }
 Times(T) == { <<-1,2>>, <<0,1>>, <<1,4>>, <<1,2>>, <<1,1>>, T, RMul(<<3,2>>, T) }
 
 (* control polygons with entries in -3..3: pseudo-random cubic residues mod 7 (coefficients from
@@ -170,6 +174,7 @@ RowsVec(n, T) == [op |-> "bcrows", n |-> n, T |-> T, M |-> BCM(n, T)]
 
 Init ==
     \/ \E n \in 0..7, T \in Ts, s \in EvalSeeds : tv = [op |-> "seed_eval", n |-> n, T |-> T, s |-> s]
+    \/ \E n \in 1..2, T \in SmallTs, s \in {5, 100} : tv = [op |-> "seed_eval_small", n |-> n, T |-> T, s |-> s]
     \/ \E n \in {3, 7}, T \in Ts, s \in TrajSeeds : tv = [op |-> "seed_traj", n |-> n, T |-> T, s |-> s]
     \/ \E T \in Ts, s \in MultiSeeds : tv = [op |-> "seed_multi", T |-> T, s |-> s]
     \/ \E T \in Ts, p0 \in V3, v0 \in V3 : tv = [op |-> "seed_solve3", T |-> T, w0 |-> <<p0, v0>>]
@@ -180,6 +185,8 @@ Init ==
 Next ==
     \/ /\ tv.op = "seed_eval"
        /\ \E t \in Times(tv.T), m \in 0..tv.n : tv' = EvalVec(tv.n, Poly(tv.n, tv.s), tv.T, t, m)
+    \/ /\ tv.op = "seed_eval_small"
+       /\ \E t \in FracTimes(tv.T), m \in 0..1 : tv' = EvalVec(tv.n, Poly(tv.n, tv.s), tv.T, t, m)
     \/ /\ tv.op = "seed_traj"
        /\ \E t \in Times(tv.T) : tv' = TrajVec(tv.n, Row(tv.n, tv.s, 1), tv.T, t)
     \/ /\ tv.op = "seed_multi"
